@@ -6,11 +6,14 @@ package aaa
 // handleSessionRestored, ProcessAccountingBucket, loadAcctSessions, pruneOrphanedAcctEntries)
 // with a recording auth provider, an in-memory opdb and a scripted stats snapshot.
 //
-// case line:   S|Sr <k> {<id>:<bucket>:<type>}  <op> <op> ...        (Sr = routed to the -race build of this harness)
+// case line:   S|Sr <k> {<class>:<type>}  <op> <op> ...        (Sr = routed to the -race build of this harness)
+//   class: sessions with the same class number share an interim bucket, different classes do not; which bucket that
+//   is (and which session ids hash there) is left to the implementation - the harness asks bucketForSession
 //   A,<i>,<ifx>            lifecycle event, state active, session i
 //   R,<i>,<ifx>            restored event
 //   X,<i>,<snap>           lifecycle event, state released
-//   T,<bucket>,<failmask>,<snap>   ProcessAccountingBucket(bucket); sessions in failmask get an error from UpdateAccounting
+//   T,<class|z>,<failmask>,<snap>  ProcessAccountingBucket(bucket of that class; z = a bucket holding no session of the
+//                          case); sessions in failmask get an error from UpdateAccounting
 //   H,S / H,I / H,SI / H,- from now on StartAccounting calls are delayed inside the provider fake (S: do not reach the
 //                          backend) and/or UpdateAccounting calls reach the backend but get no response (I: recorded
 //                          with flag h, the caller stays blocked) / nothing is held;  U  lets the delayed Starts through
@@ -354,6 +357,44 @@ func (v *vf09VPP) set(tok string) error {
 	return nil
 }
 
+// vf09Assign picks session ids "s<n>" such that sessions with equal class share an interim bucket and sessions
+// with different classes do not, asking the implementation (bucketForSession) for every id; it also returns a bucket
+// that holds none of the sessions.
+func vf09Assign(classes []int) (ids []string, classBucket map[int]int, free int, ok bool) {
+	ids = make([]string, len(classes))
+	classBucket = map[int]int{}
+	used := map[int]bool{}
+	n := 0
+	for i, c := range classes {
+		found := false
+		for tries := 0; tries < 20000 && !found; tries++ {
+			id := "s" + strconv.Itoa(n)
+			n++
+			b := bucketForSession(id)
+			if bucketForSession(id) != b {
+				return nil, nil, 0, false
+			}
+			if want, have := classBucket[c]; have {
+				found = b == want
+			} else if !used[b] {
+				classBucket[c], used[b], found = b, true, true
+			}
+			if found {
+				ids[i] = id
+			}
+		}
+		if !found {
+			return nil, nil, 0, false
+		}
+	}
+	for b := 0; b < 4096; b++ {
+		if !used[b] {
+			return ids, classBucket, b, true
+		}
+	}
+	return nil, nil, 0, false
+}
+
 type vf09Sess struct {
 	id     string
 	bucket int
@@ -474,6 +515,9 @@ type vf09World struct {
 	bases []*component.Base
 	idx   map[string]int
 	g0    int
+	// interim bucket of each co-location class of the case, and a bucket holding none of its sessions
+	classBucket map[int]int
+	freeBucket  int
 }
 
 func (w *vf09World) newComponent() {
@@ -625,24 +669,37 @@ func vf09RunCase(line string, g0 int) (res string) {
 	w = &vf09World{ap: &vf09Provider{fail: map[string]bool{}}, db: &vf09Store{m: map[string]map[string][]byte{}}, ss: &vf09Show{},
 		vpp: &vf09VPP{err: errors.New("l2gw stats unavailable")}}
 	idx := map[string]int{}
+	// The case names the sessions by CO-LOCATION CLASS, not by id or bucket number: which interim bucket an id hashes to
+	// is the implementation's free choice.  Ids are picked through the package's own bucketForSession so that sessions
+	// of one class share a bucket and different classes do not.
+	classes := make([]int, k)
+	typs := make([]models.AccessType, k)
 	for i := 0; i < k; i++ {
 		p := strings.Split(f[2+i], ":")
-		if len(p) != 3 {
+		if len(p) != 2 {
 			return "badline"
 		}
-		b, _ := strconv.Atoi(p[1])
-		typ := models.AccessTypeIPoE
-		if p[2] == "p" {
-			typ = models.AccessTypePPPoE
-		} else if p[2] == "g" {
-			typ = models.AccessTypeL2GW
+		c, err := strconv.Atoi(p[0])
+		if err != nil || c < 0 || c > 8 {
+			return "badline"
 		}
-		if bucketForSession(p[0]) != b {
-			return fmt.Sprintf("BADBUCKET %s impl=%d declared=%d", p[0], bucketForSession(p[0]), b)
+		classes[i] = c
+		typs[i] = models.AccessTypeIPoE
+		if p[1] == "p" {
+			typs[i] = models.AccessTypePPPoE
+		} else if p[1] == "g" {
+			typs[i] = models.AccessTypeL2GW
 		}
-		w.sess = append(w.sess, vf09Sess{id: p[0], bucket: b, typ: typ, mac: net.HardwareAddr{2, 0, 0, 0, 0, byte(i + 1)}})
-		idx[p[0]] = i
 	}
+	ids, classBucket, free, ok := vf09Assign(classes)
+	if !ok {
+		return "NOBUCKETS bucketForSession did not yield the co-location the case asks for"
+	}
+	for i := 0; i < k; i++ {
+		w.sess = append(w.sess, vf09Sess{id: ids[i], bucket: classBucket[classes[i]], typ: typs[i], mac: net.HardwareAddr{2, 0, 0, 0, 0, byte(i + 1)}})
+		idx[ids[i]] = i
+	}
+	w.classBucket, w.freeBucket = classBucket, free
 	w.idx, w.g0 = idx, g0
 	w.newComponent()
 	var groups []string
@@ -948,7 +1005,7 @@ func (w *vf09World) valid(a []string) bool {
 		}
 		_, ok1 := num(a[1])
 		_, ok2 := num(a[2])
-		return ok1 && ok2
+		return (ok1 || a[1] == "z") && ok2
 	case "B", "U":
 		return len(a) == 1
 	case "P":
@@ -993,7 +1050,12 @@ func (w *vf09World) exec(a []string) string {
 		w.c.handleSessionLifecycle(events.Event{Timestamp: time.Now(), Data: &events.SessionLifecycleEvent{
 			AccessType: w.sess[i].typ, Protocol: sess.GetProtocol(), SessionID: w.sess[i].id, State: models.SessionStateReleased, Session: sess}})
 	case "T":
-		b, mask := num(a[1]), num(a[2])
+		b, mask := w.freeBucket, num(a[2])
+		if c, err := strconv.Atoi(a[1]); err == nil {
+			if cb, ok := w.classBucket[c]; ok {
+				b = cb
+			}
+		}
 		if a[3] != "" && w.setSnap(a[3]) != nil {
 			return "badline"
 		}
